@@ -64,7 +64,8 @@ def jdump(o):
 
 
 def walk_objects(o, fn, _seen=None, path=()):
-    """Reflection walk over every reachable object (lists, dicts, node attributes); fn(obj, path)."""
+    """Reflection walk over every reachable object (lists, dicts, node attributes); fn(obj, path).
+    If fn returns the string 'stop' the walk does not descend into that object."""
     if _seen is None:
         _seen = set()
     if o is None or isinstance(o, (bool, int, float, str, bytes, type)):
@@ -72,7 +73,8 @@ def walk_objects(o, fn, _seen=None, path=()):
     if id(o) in _seen:
         return
     _seen.add(id(o))
-    fn(o, path)
+    if fn(o, path) == 'stop':
+        return
     if isinstance(o, (list, tuple, set, frozenset)):
         for i, x in enumerate(o):
             walk_objects(x, fn, _seen, path + (i,))
@@ -98,8 +100,13 @@ def plan_proj(plan):
         subs = []
 
         def visit(o, path):
+            from mindsdb_sql.planner.steps import PlanStep as _PS
             if isinstance(o, Result):
                 refs.append(o.step_num)
+            elif isinstance(o, _PS):
+                # a step object held in a field is a reference to that step's result
+                refs.append(getattr(o, 'step_num', None))
+                return 'stop'
         d = dict(getattr(s, '__dict__', {}))
         sub_objs = []
         for name in ('step', 'steps'):
